@@ -1,5 +1,13 @@
-(* extraction of the C17 concrete-instance model for the correspondence driver: ExtrOcamlBasic only *)
+(* extraction of the C17 models for the correspondence driver: ExtrOcamlBasic only.
+   - the concrete instance of Model/Flow.v (names c_...),
+   - the instance with the real WBXML per-node encoding, Model/FlowEnc.v over Model/EncWbxml.v (names w_...), with the
+     regenerated tables in EncWbxml's form (Model/EncWbxmlTables.v main_btable) *)
+Require Import Wbxml.Model.Codec.
+Require Import Wbxml.Model.EncWbxml.
+Require Import Wbxml.Model.EncWbxmlTables.
 Require Import Wbxml.Model.Flow.
+Require Import Wbxml.Model.FlowEnc.
 Require Extraction.
 Require Import ExtrOcamlBasic.
-Extraction "model.ml" c_step c_step_fixed c_init c_get_output c_spec_output c_safe c_run c_run_fixed d16_ops.
+Extraction "model.ml" c_step c_step_fixed c_init c_get_output c_spec_output c_safe c_run c_run_fixed d16_ops
+  w_step w_step_fixed w_init w_spec_output st_of parse_node enc_element_start flow_env find_lang main_btable.
